@@ -1,13 +1,24 @@
 #!/bin/bash
 # usage: tools/try_seed.sh <seed dir under /verif/seeded> <check ids...>
-# applies the seeded patch to /repo, runs the given checks (quick), reverts the patch.
+# Applies the seeded patch, runs the given checks (quick), reverts the patch.
+# Default target is /repo itself (git -C /repo apply ...; checks; git -C /repo checkout -- .).
+# With SCRATCH=1 the patch is applied to the scratch worktree /tmp/vs and the checks run with VERIF_REPO=/tmp/vs
+# (used while a background run needs /repo untouched).
 set -u
+export VERIF_NO_EVIDENCE=1
 seed=$1; shift
-cd /repo || exit 1
-if ! git diff --quiet; then echo "/repo is dirty"; exit 1; fi
+target=/repo
+if [ "${SCRATCH:-0}" = 1 ]; then
+  target=/tmp/vs
+  [ -d $target ] || git -C /repo worktree add -q --detach $target HEAD
+  git -C $target checkout -q --detach $(git -C /repo rev-parse HEAD)
+  export VERIF_REPO=$target
+fi
+cd $target || exit 1
+if ! git diff --quiet; then echo "$target is dirty"; exit 1; fi
 git apply /verif/seeded/$seed/patch.diff || { echo "patch does not apply"; exit 1; }
 for c in "$@"; do
   (cd /verif && VERIF_SEED=${VERIF_SEED:-1} ./check $c --tier ${TIER:-quick} 2>&1 | grep -v "^  built\|^  corpus\|^KNOWN" | cut -c1-260 | head -${LINES_MAX:-8})
 done
-git -C /repo checkout -- .
-git -C /repo status --short | head -3
+git -C $target checkout -- .
+git -C $target status --short | head -3
